@@ -101,6 +101,24 @@ def run(ctx: Ctx) -> None:
         groups.append(g)
         _flush(ctx, groups, stats, "generated/mutated")
     _flush(ctx, groups, stats, "generated/mutated", force=True)
+    # ---- 4b. unequal limits x pipelines in which one start / field line lies between the two limits (both orders):
+    #          which limit applies depends on the kind of line, never on the message's place inside a read
+    for cn in ("line>field", "line<field"):
+        lim = H.LIMIT_CONFIGS[cn]
+        ch = H.ConnHarness(lim)
+        for label, s, cutsets, mode in G.between_limits_family(lim.max_line, lim.max_field):
+            if mode != "request":
+                continue
+            g = H.Group(mode, s, lim, src="between-limits", label=f"{label} [{cn}]")
+            g.parse([])
+            for cs in cutsets:
+                g.parse(cs)
+            g.parse(G.random_cuts(rng, len(s), 2))
+            g.conn(ch, [])
+            g.conn(ch, cutsets[0])
+            conn_done += 1
+            groups.append(g)
+    _flush(ctx, groups, stats, "lines between unequal limits", force=True)
     # ---- 5. pipelines with upgrade offers: the parser reports the offer and hands back the rest of the stream; a
     #         connection whose handler declines it must go on with the pipelined requests - each exactly once
     for i in range(ctx.pick(100, 1200)):
